@@ -1,0 +1,17 @@
+//go:build verif
+
+package shaping
+
+import "golang.org/x/image/math/fixed"
+
+// VerifLetterSpacing returns the unexported letter spacing bookkeeping of a glyph
+// (the amounts that AddLetterSpacing added before and after it).
+func (g Glyph) VerifLetterSpacing() (start, end fixed.Int26_6) {
+	return g.startLetterSpacing, g.endLetterSpacing
+}
+
+// VerifSetLetterSpacing sets the unexported letter spacing bookkeeping of a glyph,
+// so that a harness can build shaped runs without going through AddLetterSpacing.
+func (g *Glyph) VerifSetLetterSpacing(start, end fixed.Int26_6) {
+	g.startLetterSpacing, g.endLetterSpacing = start, end
+}
